@@ -246,7 +246,9 @@ pub fn materialize(d: &Dims) -> Option<Case> {
         4 => ProvSpec::Fail(ErrSpec::Sig("MalformedQueryString".into(), "from the provider".into())),
         _ => ProvSpec::Fail(ErrSpec::Str),
     };
-    Some(Case { wire: w, cfg, prov })
+    let case = Case { wire: w, cfg, prov };
+    // ambient configuration B: options that cannot matter for this request are switched the other way
+    Some(if crate::env::ambient_b() { e2e::flip_noop_options(&case) } else { case })
 }
 
 /// Message class: the message with quoted data and digits abstracted away. Used only to tell apart
